@@ -38,10 +38,17 @@ func c07Scenarios(tier string) []*Scenario {
 			wl.Handler.Ops = []HOp{{K: "sethdr", MD: hmd}, {K: "settrl", MD: tmd}, {K: "recv"}, {K: "send", Size: 200000}, {K: "return"}}
 		}},
 	}
+	variants = append(variants, variant{"abandoned", func(wl *Workload, shape string) {
+		// the handler sends several small responses and then waits for its context; the caller
+		// reads nothing, cancels and abandons the stream (it never drains it)
+		wl.Call.Ops = []COp{{K: "new"}, {K: "send", Size: 3}, {K: "waitfault", D: 3 * time.Second}}
+		wl.Handler.Ops = []HOp{{K: "sethdr", MD: hmd}, {K: "recv"}, {K: "send", Size: 3}, {K: "send", Size: 3}, {K: "send", Size: 3}, {K: "send", Size: 3}, {K: "waitctx"}, {K: "return", Code: codes.Aborted, Msg: "ctx done"}}
+		wl.Handler.KeepGoing = true
+	}})
 	for _, cfg := range []TunCfg{{}, {ServerNoFC: true}, {Reverse: true}, {Reverse: true, ServerNoFC: true}} {
 		for _, shape := range []string{"Unary", "ClientStream", "ServerStream", "Bidi"} {
 			for _, v := range variants {
-				if v.name == "blocked-in-send" && (shape == "Unary" || shape == "ClientStream") {
+				if (v.name == "blocked-in-send" || v.name == "abandoned") && (shape == "Unary" || shape == "ClientStream") {
 					continue
 				}
 				if v.name == "blocked-in-recv" && (shape == "Unary" || shape == "ServerStream") {
@@ -108,6 +115,20 @@ func c07Scenarios(tier string) []*Scenario {
 								if term == nil && ((e.Op == "recv" && !e.OK()) || e.Op == "invoke" || (e.Op == "new" && !e.OK())) {
 									term = &ce[i]
 								}
+							}
+							if term == nil && v.name == "abandoned" {
+								// the caller never asks: only the handler side and the tunnel are judged
+								inv, ret := false, false
+								for _, e := range w.EventsOf("handler:r1") {
+									inv = inv || e.Op == "invoked"
+									ret = ret || e.Op == "returned"
+								}
+								if inv && !ret {
+									bad("handler-unblocked", "cancel:handler-never-returned", "handler r1 never returned")
+								}
+								r2 := StdWorkload("r2", 2, "Bidi", []int{3}, []int{3})
+								vs = append(vs, rename(completeOK(w, "C07", r2), "cancel:second-rpc-failed")...)
+								return append(vs, NoLeak(w, x, "C07")...)
 							}
 							if term == nil {
 								bad("one-terminal-result", "cancel:no-terminal-result", "caller never obtained a terminal result")
